@@ -134,7 +134,7 @@ def rule_access(ctx: Ctx):
                       fi.key, f"return {v}")
 
 
-def rule_mapping(ctx: Ctx):
+def rule_mapping(ctx: Ctx, rule: str = "C10.access"):
     """C10.access (plumbing): states are looked up by their `value`; the mixin hands the model over."""
     rep = ctx.rep
     fn = ctx.fn("StateMachineMetaclass.add_state")
@@ -143,16 +143,16 @@ def rule_mapping(ctx: Ctx):
         for e in p.of("store"):
             if e.x.get("subscript") and xshow(e.term.value, p.events).endswith(".states_map"):
                 seen = True
-                rep.check(xshow(e.term.slice, p.events) == f"{fn.params[2]}.value" and show(e.x["value"]) == fn.params[2], "C10.access", e.loc(),
+                rep.check(xshow(e.term.slice, p.events) == f"{fn.params[2]}.value" and show(e.x["value"]) == fn.params[2], rule, e.loc(),
                           "states_map maps a state's *value* to that state", fn.key, norm_stmt(e.node))
         apps = [e for e in p.calls() if xshow(e.term.func, p.events).endswith(".states.append")]
         ids = [e for e in p.calls() if show(e.term.func) == f"{fn.params[2]}._set_id"]
         if apps and ids:
-            rep.check(ids[0].idx < apps[0].idx and show(apps[0].term.args[0]) == fn.params[2], "C10.access", apps[0].loc(),
+            rep.check(ids[0].idx < apps[0].idx and show(apps[0].term.args[0]) == fn.params[2], rule, apps[0].loc(),
                       "a state gets its id (and default value) before it is registered", fn.key, norm_stmt(apps[0].node))
         break
     if not seen:
-        rep.violation("C10.access", fn.loc(), "add_state does not fill states_map", fn.key, "no states_map[...] store")
+        rep.violation(rule, fn.loc(), "add_state does not fill states_map", fn.key, "no states_map[...] store")
     # states_map is the set of valid model contents: every key put into it, anywhere, is the `value` of the state it maps to
     n_w = 0
     for f in ctx.p.all_functions():
@@ -170,22 +170,22 @@ def rule_mapping(ctx: Ctx):
                     key, val = node.args
                 else:
                     n_w += 1
-                    rep.violation("C10.access", f.loc(node), f"states_map is changed with `.{node.func.attr}(...)`: its keys are exactly the declared "
+                    rep.violation(rule, f.loc(node), f"states_map is changed with `.{node.func.attr}(...)`: its keys are exactly the declared "
                                   "states' values", f.key, norm_stmt(node))
                     continue
             if key is None:
                 continue
             n_w += 1
             ok = isinstance(key, ast.Attribute) and key.attr == "value" and val is not None and show(key.value) == show(val)
-            rep.check(ok, "C10.access", f.loc(node), "every key of states_map is the `value` of the state it maps to (nothing else is a valid "
+            rep.check(ok, rule, f.loc(node), "every key of states_map is the `value` of the state it maps to (nothing else is a valid "
                       "model content: an id, a name or an alias stored there would be accepted and resolved)", f.key, norm_stmt(node))
-    rep.floor("C10.access", "writes of states_map in the package", n_w, 1)
+    rep.floor(rule, "writes of states_map in the package", n_w, 1)
     sid = ctx.fn("State._set_id")
     for p in ctx.paths(sid, inline=None, exc_edges="none"):
         facts = {xshow(b.term, p.events): b.x["taken"] for b in p.of("branch")}
         st = [e for e in p.of("store") if e.x.get("attr") == "value"]
         if st:
-            rep.check(facts.get("self.value is None") is True and show(st[0].x["value"]) == sid.params[1], "C10.access", st[0].loc(),
+            rep.check(facts.get("self.value is None") is True and show(st[0].x["value"]) == sid.params[1], rule, st[0].loc(),
                       "a state's value defaults to its id only when no value was given (None-test)", sid.key, norm_stmt(st[0].node), facts=facts)
     mm = ctx.fn("MachineMixin.__init__")
     ok = False
@@ -195,10 +195,10 @@ def rule_mapping(ctx: Ctx):
             if f.startswith(("registry.get_machine_cls(", "get_machine_cls(")):
                 kw = {k.arg: show(k.value) for k in e.term.keywords}
                 ok = e.term.args and show(e.term.args[0]) == "self" and kw.get("state_field") == "self.state_field_name"
-                rep.check(bool(ok), "C10.access", e.loc(), "MachineMixin builds the machine over the model instance itself and its configured state field",
+                rep.check(bool(ok), rule, e.loc(), "MachineMixin builds the machine over the model instance itself and its configured state field",
                           mm.key, norm_stmt(e.node))
     if not ok:
-        rep.violation("C10.access", mm.loc(), "MachineMixin does not hand the model to the machine", mm.key, "no machine_cls(self, state_field=...) call")
+        rep.violation(rule, mm.loc(), "MachineMixin does not hand the model to the machine", mm.key, "no machine_cls(self, state_field=...) call")
 
 
 def rule_written_value(ctx: Ctx):
@@ -434,4 +434,59 @@ def rule_default_model(ctx: Ctx):
               f"{m.module.rel}::Model", f"class Model({', '.join(m.bases)})")
 
 
-RULES = [rule_access, rule_written_value, rule_mapping, rule_noshadow, rule_falsy, rule_active, rule_start_value, rule_default_model]
+_ORDERING = ("sorted", "min", "max", "heapq.nsmallest", "heapq.nlargest", "bisect.insort", "insort")
+
+
+def rule_values_are_only_hashed_and_compared_for_equality(ctx: Ctx):
+    """C10.access: a state value is whatever the user chose (None excepted): an int, a str, an Enum member, a tuple, values of mixed
+    types. The accessors and the exception that reports an unmapped value may hash it and compare it for equality - nothing else.
+    An ordering operation over the stored value or over the values of the states (`sorted(states_map)` for a nicer message) raises
+    TypeError for Enum members or mixed types, so the unmapped value is no longer answered with InvalidStateValue."""
+    rep = ctx.rep
+    exc = ctx.p.classes.get("InvalidStateValue")
+    fns = []
+    if exc is not None:
+        fns += [m for ms in exc.methods.values() for m in ms]
+    for nm in ("StateMachine._get_initial_state", "StateMachine.current_state", "StateMachine.current_state_value",
+               "StateMachineMetaclass.add_state", "State.is_active", "StateMachine.__init__", "StateMachine.start_value"):
+        c, _, m = nm.partition(".")
+        cls = ctx.p.classes.get(c)
+        if cls is not None:
+            fns += list(cls.methods.get(m, []))
+    n = 0
+    for fn in fns:
+        tainted = {"states_map", "current_state_value", "start_value", "initial_state_value", "value", "state_field"}
+        if fn.cls is not None and fn.cls.name == "InvalidStateValue":
+            tainted |= {p_ for p_ in fn.params if p_ not in ("self", "msg")}
+        changed = True
+        while changed:  # locals assigned from tainted expressions
+            changed = False
+            for x in own_nodes(fn.node):
+                if isinstance(x, ast.Assign) and any(isinstance(y, (ast.Name, ast.Attribute)) and (getattr(y, "id", None) in tainted or getattr(y, "attr", None) in tainted)
+                                                     for y in ast.walk(x.value)):
+                    for t in x.targets:
+                        if isinstance(t, ast.Name) and t.id not in tainted:
+                            tainted.add(t.id)
+                            changed = True
+
+        def mentions(e):
+            return any((isinstance(y, ast.Name) and y.id in tainted) or (isinstance(y, ast.Attribute) and y.attr in tainted) for y in ast.walk(e))
+
+        for x in own_nodes(fn.node):
+            bad = None
+            if isinstance(x, ast.Call):
+                f = show(x.func)
+                if (f in _ORDERING or f.endswith(".sort")) and (any(mentions(a) for a in x.args) or (f.endswith(".sort") and mentions(x.func))):
+                    bad = f"`{show(x)[:80]}` orders state values"
+            elif isinstance(x, ast.Compare) and any(isinstance(o, (ast.Lt, ast.LtE, ast.Gt, ast.GtE)) for o in x.ops) and \
+                    (mentions(x.left) or any(mentions(c_) for c_ in x.comparators)) and "len(" not in show(x):
+                bad = f"`{show(x)[:80]}` compares state values by order"
+            if bad:
+                rep.violation("C10.access", fn.loc(x), f"{fn.qualname}: {bad}; values need only be hashable and comparable for equality "
+                              "(Enum members and mixed types are not orderable: TypeError instead of InvalidStateValue)", fn.key, norm_stmt(x))
+        n += 1
+    rep.floor("C10.access", "accessor / exception functions scanned for ordering operations on state values", n, 6)
+    rep.ok("C10.access", "package", "no ordering operation is applied to state values in the accessors or in InvalidStateValue", functions=n)
+
+
+RULES = [rule_values_are_only_hashed_and_compared_for_equality, rule_access, rule_written_value, rule_mapping, rule_noshadow, rule_falsy, rule_active, rule_start_value, rule_default_model]
